@@ -55,8 +55,14 @@ claim("C09", SIM + "; oracle: omniscient key history of the shadow reference: ow
       "trusted: refotr key schedule and ratchet model; disclosure at End is not demanded by the statement",
       "DESIGN.md section 5 C09")
 
+claim("C01", SIM + "; oracle: first-principles re-validation of every accepted exchange from the party's own exponent and the messages delivered to it; provenance of the peer DH value; stability; agreement + probes",
+      "Two real parties and an active attacker (reorder/duplicate/drop/replay across sessions, 12 AKE field mutators) plus Mallory as a protocol participant with her own key (commit/reveal mismatch, degenerate and boundary DH values with the matching shared secret, X blocks advertising the victim's peer key with her own or a garbage signature or over other DH values, relay between exchanges, refresh started and abandoned against an encrypted victim). "
+      "Whenever a party enters a session, the harness re-derives the SSID from one of the party's own exponents and a DH value actually delivered to it, requires that value in range, and verifies MAC and DSA signature of the triggering message for the reported key; a session reporting honest Q's key must rest on a value Q drew; identity is stable while encrypted; ends sharing an exchange agree and can talk.",
+      "trusted: refotr key schedule/X-block helpers and Go stdlib DSA; cryptographic strength is not tested",
+      "DESIGN.md section 5 C01")
+
 _todo = "check not built yet in this session (see DESIGN.md section 12 build order)"
-for pid in ["C01", "C03", "C11", "C12", "C13", "C14", "C15", "C16", "C18", "C19", "C20"]:
+for pid in ["C03", "C11", "C12", "C13", "C14", "C15", "C16", "C18", "C19", "C20"]:
     NA[pid] = _todo
 NA["C17"] = ("pure function of one input (parse(serialise(x)) = x): no schedule, clock, fault, peer or history for a simulator to vary; "
              "deterministic simulation does not apply (DESIGN.md section 5 C17)")
